@@ -781,6 +781,9 @@ func (x *Exec) contractHavoc(fr *frame, st, pre *State, con *FnContract, callee 
 		nv := c.FreshValue("mod", l.T, st.pc)
 		x.store(fr, st, l, nv)
 	}
+	if !con.ModFresh {
+		x.bumpAlloc(st)
+	}
 	if con.ModFresh {
 		old := st.alloc
 		x.bumpAlloc(st)
